@@ -391,7 +391,9 @@ def _helpers(ctx):
                     else:
                         got[k] = const_value(fc.defaults().get(k))
             except (EvUnknown, KeyError) as e:
-                bad.append((val, f"cannot evaluate {str(e)[:60]}"))
+                raise AnalysisError(
+                    f"{f.qual}: a lookup condition is outside the evaluated "
+                    f"fragment: {str(e)[:80]}")
                 continue
             if name == "find_required_column":
                 exp = {"col": val, "required": True, "unique": True,
@@ -506,7 +508,9 @@ def _helpers(ctx):
                             bad.append(("result", r, u, n,
                                         show(res, 60) if res else None))
         except (TTUnknown, KeyError) as e:
-            bad.append(("cannot evaluate", str(e)[:100]))
+            raise AnalysisError(
+                f"{f.qual}: a condition of find_column is outside the "
+                f"evaluated fragment: {str(e)[:100]}")
         ctx.check(not [b_ for b_ in bad if b_[0] != "result"],
                   "C10c-missing-or-ambiguous-raises", fc,
                   "a missing required column and an ambiguous unique column "
